@@ -147,7 +147,10 @@ class TlsExtensionUnparsed(TlsExtensionBase):
 
     @classmethod
     def _parse_type(cls, parser, name):
-        parser.parse_parsable(name, TlsInvalidTypeTwoByte)
+        try:
+            parser.parse_parsable(name, TlsExtensionTypeFactory)
+        except InvalidValue:
+            parser.parse_parsable(name, TlsInvalidTypeTwoByte)
 
     @classmethod
     def _parse(cls, parsable):
@@ -158,7 +161,10 @@ class TlsExtensionUnparsed(TlsExtensionBase):
         return TlsExtensionUnparsed(parser['extension_type'], parser['extension_data']), parser.parsed_length
 
     def _compose_type(self, composer):
-        composer.compose_parsable(self.extension_type)
+        if isinstance(self.extension_type, TlsExtensionType):
+            composer.compose_numeric_enum_coded(self.extension_type)
+        else:
+            composer.compose_parsable(self.extension_type)
 
     def compose(self):
         return self._compose_header(len(self.extension_data)) + self.extension_data
